@@ -217,6 +217,12 @@ PROPS = {
                 technique="TLA+ typing rules + error-monad state machine (QFTrace.tla) + TLC trace validation of harness executions under recover",
                 rule="systematic product of operations x argument kinds plus random chains; non-trivial = an event whose result is an error; distinct by (operation, arguments, result digest)"),
     "C01": dict(level="model_checking", nontrivial=nt_c01,
+                mc=[dict(name="Heap", module="Heap.tla", cfg="HeapMC.cfg", timeout=1500, heap="16g"),
+                    dict(name="HeapPinSort", module="Heap.tla", cfg="HeapPinSortInPlace.cfg", expect_violation="Persistent"),
+                    dict(name="HeapPinSetColumn", module="Heap.tla", cfg="HeapPinSetColumnInPlace.cfg", expect_violation="Persistent"),
+                    dict(name="HeapPinFilter", module="Heap.tla", cfg="HeapPinFilterInPlace.cfg", expect_violation="Persistent"),
+                    dict(name="HeapEmit", module="Heap.tla", cfg="HeapEmit.cfg", emit=True, id_base=1000000),
+                    dict(name="HeapDeep", module="Heap.tla", cfg="HeapDeep.cfg", tier="thorough", timeout=3000, heap="24g")],
                 text="Histories of 10..30 operations (Filter, Sort, Slice, Select, Drop, Copy, Apply, FilteredApply, Eval, WithRowNums, Distinct, GroupBy/Aggregate/QFrames, "
                      "typed views whose Slice() results are then overwritten, ToCSV/ToJSON/String/Equals), each applied to any member of the growing family, are executed on the real "
                      "library; after every step every earlier frame, grouper and view is re-observed completely through the public API and TLC requires its digest to equal the one "
@@ -234,6 +240,10 @@ PROPS = {
                 technique="TLA+ specification (ApplyEval.tla) + TLC trace validation of harness executions",
                 rule="random frames (derived by sort/slice/filter/distinct) x random instruction lists; non-trivial = the result has >=1 row; distinct by (instructions, result digest)"),
     "C07": dict(level="model_checking", nontrivial=nt_c07,
+                mc=[dict(name="EvalImpl", module="EvalImpl.tla", cfg="EvalImplMC.cfg", timeout=1500),
+                    dict(name="EvalImplPinD5", module="EvalImpl.tla", cfg="EvalImplPinD5.cfg", expect_violation="Refines"),
+                    dict(name="EvalImplPinD14", module="EvalImpl.tla", cfg="EvalImplPinD14.cfg", expect_violation="Refines"),
+                    dict(name="EvalImplEmit", module="EvalImpl.tla", cfg="EvalImplEmit.cfg", emit=True, id_base=1000000)],
                 text="Every Eval call of the generated scenarios (type-directed random expression trees of depth <=3 quick / <=6 thorough with unary, binary and n-ary calls, "
                      "constants on either side of non-commutative functions, user-registered functions, destinations equal to sources or to names shaped like the "
                      "evaluator's temporaries, frames that already own such names, malformed and ill-typed expressions) is executed on the real library and compared "
@@ -277,6 +287,12 @@ PROPS = {
                 rule="random frames x order lists, plus adversarial (antiquicksort) int columns; non-trivial = more than 12 rows (beyond insertion sort); "
                      "distinct by (orders, result digest)"),
     "C02": dict(level="model_checking", nontrivial=nt_c02,
+                mc=[dict(name="FilterImpl", module="FilterImpl.tla", cfg="FilterImplMC.cfg", timeout=1500, heap="16g"),
+                    dict(name="FilterImplPinD2", module="FilterImpl.tla", cfg="FilterImplPinD2.cfg", expect_violation="Refines"),
+                    dict(name="FilterImplPinD3", module="FilterImpl.tla", cfg="FilterImplPinD3.cfg", expect_violation="Refines"),
+                    dict(name="FilterImplEmit", module="FilterImpl.tla", cfg="FilterImplEmit.cfg", emit=True, id_base=1000000, tier_only="quick"),
+                    dict(name="FilterImplDeep", module="FilterImpl.tla", cfg="FilterImplDeep.cfg", tier="thorough", timeout=3000, heap="24g"),
+                    dict(name="FilterImplEmitDeep", module="FilterImpl.tla", cfg="FilterImplEmitDeep.cfg", emit=True, id_base=1000000, tier="thorough")],
                 text="Every Filter call of the generated scenarios (random clause trees over all comparators x constant / list / column / none / predicate "
                      "arguments x five column types x Inverse, on frames with arbitrary physical index) is executed on the real library and the kept rows "
                      "are compared by TLC with FilterSem (spec/Clause.tla: row-wise ClauseTruth) evaluated on the specification's own copy of the receiver.",
